@@ -4,6 +4,8 @@
 mod ctx;
 mod rng;
 mod refimpl;
+mod gen;
+mod p03;
 mod p17;
 mod p18;
 
@@ -67,6 +69,7 @@ fn main() {
     ctx::start_watchdog(out.clone(), cpu_budget);
     let mut c = Ctx::new(&prop, tier, seed, shard, nshards, scale, &mode, time_limit, replay, out);
     match prop.as_str() {
+        "C03" => p03::run(&mut c),
         "C17" => p17::run(&mut c),
         "C18" => p18::run(&mut c),
         _ => {
